@@ -165,6 +165,15 @@ func LoadVerifier(repo, verifDir string) (*Verifier, error) {
 				continue
 			}
 		}
+		if src == "repo" {
+			mir := filepath.Join(verifDir, "contracts", "mirror", rel, "zz_contracts_verif.go")
+			if mb, err := os.ReadFile(mir); err == nil {
+				if rb, err := os.ReadFile(cand); err == nil && string(mb) != string(rb) && os.Getenv("VERIF_ACCEPT_REPO_CONTRACTS") == "" {
+					// the specification is the mirror committed under /verif; an edited copy in /repo is not the specification
+					cand, src = mir, "mirror (the copy in /repo differs)"
+				}
+			}
+		}
 		cf, err := ParseContractFile(cand)
 		if err != nil {
 			return nil, err
@@ -344,6 +353,9 @@ func (V *Verifier) VerifyFunction(tg FuncTarget, only map[string]bool) []*Obliga
 				st.assume(ax)
 			}
 		}
+		// vacuity canary: requires && assumes of this run must be satisfiable (false must not follow)
+		x.obs = append(x.obs, &Obligation{Name: tg.Inst + "/" + run + "/canary(assumptions-satisfiable)", Func: tg.Inst, Kind: "canary", Canary: true, Hyps: append([]*Term{}, st.pc...), Goal: False,
+			Detail: "requires and assumes of the behaviour are not contradictory"})
 		x.old = st.clone()
 		allocEntry := st.alloc
 		x.onReturn = func(s *State, res []Value) {
